@@ -1,8 +1,179 @@
 import NflowsModel.Core.Driver
-/-! Core/Ops/C08 — driver operations used by the C08 correspondence (executable model, Mathlib-free). -/
+import NflowsModel.Core.Multiscale
+/-! Core/Ops/C08 — driver operations used by the C08 correspondence (executable model, Mathlib-free).
+
+A request carries a NESTING of wrappers as a tree (`"tree"` in the raw JSON); the leaves are a small family of atoms
+whose arithmetic is exact in binary64 (dyadic affine maps, position-dependent integer shifts, permutations).  The
+tree is turned into a transform object with the combinators of `Core/Wrappers` and `Core/Multiscale` — the
+definitions the theorems of `Properties/C08` are about — and evaluated on every batch item. -/
+open Lean
 namespace NF
+open NF.Wrap
+
+namespace C08
+
+/-- a nesting of wrappers over atoms -/
+inductive Node where
+  /-- `PointwiseAffineTransform(shift=s, scale=sg·2^e)` (standard.py:24-68) -/
+  | aff (e : Int) (sg : Int) (s : Int)
+  /-- harness test double: `y_i = x_i + m·(i+1) + cm·context`, declared log-det `t` (inverse: `-t`);
+      `noinv`: only `forward` is implemented (base.py:28-29) -/
+  | tag (m : Int) (t : Int) (cm : Int) (noinv : Bool)
+  /-- `Permutation(p, dim)` / `ReversePermutation(features, dim)` (permutations.py:9-45) -/
+  | perm (dim : Nat) (p : List Nat)
+  | comp (cs : List Node)
+  | inv (c : Node)
+  /-- `MultiscaleCompositeTransform(n, sd)` followed by `add_transform(c_k, shape_k)` for every `k` -/
+  | ms (n : Int) (sd : PyArg) (cs : List Node) (shapes : List (List Nat))
+
+abbrev FT := Tr (Item Float) Float Float
+
+def fA : LD Float := ⟨0.0, fun a b => a + b⟩
+
+/-- standard.py:54-68 with a scalar `scale`: `log|scale| · numel` -/
+def affTr (e sg s : Int) : FT :=
+  let scale : Float := (Float.ofInt sg) * Float.scaleB 1.0 e
+  let shift : Float := Float.ofInt s
+  let ld (x : Item Float) : Float := Float.log (Float.abs scale) * Float.ofNat (prod x.shape)
+  { fwd := fun x _ => .ok (⟨x.shape, x.data.map (fun v => v * scale + shift)⟩, ld x)
+    inv := fun x _ => .ok (⟨x.shape, x.data.map (fun v => (v - shift) / scale)⟩, -(ld x)) }
+
+def tagTr (m t cm : Int) (noinv : Bool) : FT :=
+  let f (sgn : Float) (x : Item Float) (c : Float) : Item Float :=
+    ⟨x.shape, (x.data.zipIdx).map (fun (v, i) => v + sgn * (Float.ofInt m * Float.ofNat (i + 1) + Float.ofInt cm * c))⟩
+  { fwd := fun x c => .ok (f 1.0 x c, Float.ofInt t)
+    inv := fun x c => if noinv then .error .inverseNotAvailable else .ok (f (-1.0) x c, -(Float.ofInt t)) }
+
+/-- `torch.index_select(inputs, dim, permutation)` on one item (`d = dim - 1`) -/
+def indexSelect (d : Nat) (p : List Nat) (x : Item Float) : Item Float :=
+  let n := x.shape.getD d 0
+  let inner := prod (x.shape.drop (d + 1))
+  let outer := prod (x.shape.take d)
+  ⟨x.shape.set d p.length,
+   (List.range outer).flatMap (fun o => p.flatMap (fun j => (x.data.drop (o * n * inner + j * inner)).take inner))⟩
+
+/-- permutations.py:24-37 -/
+def permApply (dim : Nat) (p : List Nat) (x : Item Float) : Except Err (Item Float × Float) :=
+  if dim ≥ x.shape.length + 1 then .error .valueError
+  else if x.shape.getD (dim - 1) 0 ≠ p.length then .error .valueError
+  else .ok (indexSelect (dim - 1) p x, 0.0)
+
+/-- `torch.argsort` of a permutation -/
+def argsortPerm (p : List Nat) : List Nat := (List.range p.length).map (fun i => p.idxOf i)
+
+def permTr (dim : Nat) (p : List Nat) : FT :=
+  { fwd := fun x _ => permApply dim p x
+    inv := fun x _ => permApply dim (argsortPerm p) x }
+
+/-- the `add_transform` calls in order; collects the returned values -/
+def addAll (m : MS Float Float Float) : List FT → List (List Nat) → List (Option (List Nat)) →
+    Except Err (MS Float Float Float × List (Option (List Nat)))
+  | t :: ts, s :: ss, rets =>
+    match m.addTransform t s with
+    | .error e => .error e
+    | .ok (m', r) => addAll m' ts ss (rets ++ [r])
+  | _, _, rets => .ok (m, rets)
+
+mutual
+/-- construct the transform object a tree denotes (construction can raise) -/
+def build : Node → Except Err FT
+  | .aff e sg s => .ok (affTr e sg s)
+  | .tag m t cm noinv => .ok (tagTr m t cm noinv)
+  | .perm dim p => .ok (permTr dim p)
+  | .comp cs =>
+    match buildList cs with
+    | .error e => .error e
+    | .ok ts => .ok (composite fA ts)
+  | .inv c =>
+    match build c with
+    | .error e => .error e
+    | .ok t => .ok (inverseTr t)
+  | .ms n sd cs shapes =>
+    match buildList cs with
+    | .error e => .error e
+    | .ok ts =>
+      match (MS.new n sd : Except Err (MS Float Float Float)) with
+      | .error e => .error e
+      | .ok m =>
+        match addAll m ts shapes [] with
+        | .error e => .error e
+        | .ok (m', _) => .ok (m'.tr fA)
+def buildList : List Node → Except Err (List FT)
+  | [] => .ok []
+  | c :: cs =>
+    match build c with
+    | .error e => .error e
+    | .ok t =>
+      match buildList cs with
+      | .error e => .error e
+      | .ok ts => .ok (t :: ts)
+end
+
+/-! ### JSON -/
+def jget (j : Json) (k : String) : Json := (j.getObjVal? k).toOption.getD Json.null
+def jNats (j : Json) : List Nat := (jArr j).toList.map jNat
+
+partial def parseNode (j : Json) : Option Node :=
+  match (jget j "k").getStr?.toOption with
+  | some "aff" => some (.aff (jInt (jget j "e")) (jInt (jget j "sg")) (jInt (jget j "s")))
+  | some "tag" => some (.tag (jInt (jget j "m")) (jInt (jget j "t")) (jInt (jget j "cm")) (jInt (jget j "noinv") != 0))
+  | some "perm" => some (.perm (jNat (jget j "dim")) (jNats (jget j "p")))
+  | some "comp" => ((jArr (jget j "c")).toList.mapM parseNode).map .comp
+  | some "inv" => (parseNode (jget j "c")).map .inv
+  | some "ms" =>
+    let sd : PyArg := match (jget j "sd").getInt? with | .ok v => .int v | .error _ => .other
+    ((jArr (jget j "c")).toList.mapM parseNode).map
+      (fun cs => .ms (jInt (jget j "n")) sd cs ((jArr (jget j "shapes")).toList.map jNats))
+  | _ => none
+
+def shapeStr (s : List Nat) : String := ",".intercalate (s.map toString)
+
+/-- `c08_eval`: raw.tree, raw.dir ∈ {fwd, inv}, raw.shape = item shape, f = one row of bit patterns per batch item,
+    d = one context value per item.  Answer: i = output item shape, f = output rows ++ [log-dets]. -/
+def runEval (r : Req) : Resp :=
+  match parseNode (jget r.raw "tree") with
+  | none => { err := some "bad-tree" }
+  | some node =>
+    match build node with
+    | .error e => { err := some e.name, strs := ["build"] }
+    | .ok t =>
+      let shape := jNats (jget r.raw "shape")
+      let inverse := (jget r.raw "dir").getStr?.toOption == some "inv"
+      let items : List (Item Float) := (List.range r.fs.size).map (fun k => ⟨shape, r.fl k⟩)
+      let results := items.zipIdx.map (fun (x, k) => (if inverse then t.inv else t.fwd) x (r.d k))
+      match results.findSome? (fun x => match x with | .error e => some e | .ok _ => none) with
+      | some e => { err := some e.name, strs := ["call"] }
+      | none =>
+        let oks := results.filterMap (fun x => match x with | .ok v => some v | .error _ => none)
+        let oshape := match oks.head? with | some (y, _) => y.shape | none => []
+        { fs := oks.map (fun (y, _) => bitsOf y.data) ++ [bitsOf (oks.map (·.2))],
+          ints := oshape.map Int.ofNat }
+
+/-- `c08_build`: a top-level `ms` tree; answer s = returned value of every `add_transform` call ("None" or the
+    shape), then "|", then the recorded `_output_shapes`. -/
+def runBuild (r : Req) : Resp :=
+  match parseNode (jget r.raw "tree") with
+  | some (.ms n sd cs shapes) =>
+    match buildList cs with
+    | .error e => { err := some e.name }
+    | .ok ts =>
+      match (MS.new n sd : Except Err (MS Float Float Float)) with
+      | .error e => { err := some e.name }
+      | .ok m =>
+        match addAll m ts shapes [] with
+        | .error e => { err := some e.name }
+        | .ok (m', rets) =>
+          { strs := rets.map (fun x => match x with | none => "None" | some s => shapeStr s) ++ ["|"] ++
+                    m'.outputShapes.map shapeStr }
+  | _ => { err := some "bad-tree" }
+
+end C08
 
 /-- handler for the ops of this property; `none` = not one of mine -/
-def handleC08 (_r : Req) : Option Resp := none
+def handleC08 (r : Req) : Option Resp :=
+  match r.op with
+  | "c08_eval" => some (C08.runEval r)
+  | "c08_build" => some (C08.runBuild r)
+  | _ => none
 
 end NF
